@@ -49,7 +49,12 @@ var c16Deviations = map[string]struct{ hash, why string }{
 	"Scanner.updateLineInfo": {"a378513b", "lacks go/scanner's maxLineCol cap (Go 1.20+): only //line directives with numbers ≥ 2^30 differ, token kinds/offsets do not"},
 	"Scanner.scanComment":    {"de33340d", "adds '#'-style comments as a third form; the '//' and '/*' branches are the reference's"},
 	"Scanner.Init":           {"28808456", "delegates to InitEx (offset support for sub-scanners); same initial state for offset 0"},
+	"Scanner.InitEx":         {"6d163ea3", "go/scanner.Init with an initial offset parameter"},
+	"Scanner.findLineEnd":    {"bde2ce45", "go/scanner's findLineEnd as of Go ≤1.19 (removed upstream when nlPos was introduced): decides whether a comment run contains/ends in a newline"},
+	"Scanner.tokSEMICOLON":   {"0beba1d0", "returns token.SEMICOLON and resets the XGo-only paren depth"},
 }
+
+const c16ScanResidual = "de58fec0"
 
 func runC16(c *core.Check) {
 	prog := c.Load("./scanner", "go/scanner")
@@ -97,6 +102,13 @@ func runC16(c *core.Check) {
 		d := c16Deviations[name]
 		c.Decide(h == d.hash, "deviation", name, xf.Pos(), "reviewed deviation, unchanged since review ("+h+"): "+d.why,
 			"this routine deviates from go/scanner by design and was reviewed in the form with hash "+d.hash+"; it now hashes to "+h+": the new form has not been compared with go/scanner (unverified divergence)")
+	}
+
+	// ---------- the parts of Scan the trie does not model (prologue, literal/comment/EOF arms, epilogue)
+	if xs := core.FindFuncDecl(x, "Scanner.Scan"); xs != nil {
+		h := scanResidualHash(x, xs, extractTrie(x, xs))
+		c.Decide(h == c16ScanResidual, "deviation", "Scanner.Scan:non-operator-parts", xs.Pos(), "reviewed ("+h+"): pending-unit prologue, py\"…\"/c\"…\" strings, '#' comments, paren-depth bookkeeping, findLineEnd-based semicolon before comments; otherwise go/scanner's Scan",
+			"the non-operator parts of Scan (pending unit, identifier/number arms, string/rune/raw-string/comment/EOF/newline arms, epilogue) were reviewed against go/scanner in the form with hash "+c16ScanResidual+" and now hash to "+h+": unverified divergence from go/scanner")
 	}
 
 	// ---------- tries
